@@ -27,12 +27,14 @@ RULE = ('every reference-well-typed program PUSH;i1..ik (k<=3) over PUSH/PAIR n/
         'with the bare run of the same program.  evaluation = one program run (bare or annotated); non-trivial = distinct '
         '(program, assignment) with at least one annotated node')
 BOUND = {
-    'quick': 'initial values: nat, right combs of 2-4 leaves, left-nested pair, pair of pairs, option/or/list of a 3-comb, packed 3- and '
-             '4-combs; type arguments of UNPACK/LEFT/RIGHT/NONE/NIL/EMPTY_MAP/LAMBDA/CAST from {nat, 3-comb, 4-comb(UNPACK,CAST)}; programs of '
-             '<=3 instructions after the PUSH, at most 2 of them type-carrying; every assignment with <=2 annotated nodes (all 3 kinds each)',
-    'thorough': 'as quick plus 5-combs (initial, UNPACK, CAST) and a 4-comb type argument; every assignment with <=2 annotated nodes over '
-                'all nodes, and ALL subsets of the pair/or/option/list/map/lambda (non-leaf) nodes of the program, each subset under each of '
-                'the 3 annotation kinds uniformly and under the kind pattern alternating %f/:t',
+    'quick': 'initial PUSH of: nat, right combs of 2-4 nat leaves, left-nested pair, pair of pairs, option/or/list of a 3-comb, packed 3- and '
+             '4-combs; type arguments: 3-comb for LEFT/RIGHT/NONE/NIL/EMPTY_MAP/LAMBDA, 3-/4-comb for UNPACK, the current top type for CAST; '
+             'all programs of <=3 instructions after the PUSH with at most one type-carrying instruction among them; programs of <=2 '
+             'instructions: every assignment with <=2 annotated nodes (every kind combination); programs of 3: every single-node assignment',
+    'thorough': 'as quick plus 5-combs (initial, packed, UNPACK), option of a 4-comb, type arguments {nat, 3-comb, 4-comb}, two type-carrying '
+                'instructions in programs of <=2; programs of <=2 instructions: every assignment with <=2 annotated nodes and every subset of '
+                'the non-leaf nodes (pair/or/option/list/map/lambda) under 4 kind patterns (%f, :t, %f :t, alternating); programs of 3: every '
+                'single node, every pair of non-leaf nodes (every kind combination), every subset of the non-leaf nodes of the initial PUSH type',
 }
 ASSUMPTIONS = ['field annotations are only legal on the components of pair/or types (Tezos rejects them elsewhere, and so does '
                'pytezos for option/list/map/lambda arguments): other placements are not re-annotations of a valid program',
@@ -126,7 +128,7 @@ LAMBDAS = [
 
 
 def type_args(tier):
-    return [NAT, comb(3)] + ([comb(4)] if tier == 'thorough' else [])
+    return [comb(3)] + ([NAT, comb(4)] if tier == 'thorough' else [])
 
 
 def unpack_types(tier):
@@ -174,7 +176,11 @@ def candidates(st, tier):
     return out
 
 
-MAX_TYPED = 2   # type-carrying instructions after the initial PUSH
+def max_typed(tier, length):
+    """How many type-carrying instructions a program of `length` instructions after the initial PUSH may contain."""
+    if tier == 'quick':
+        return 1
+    return 2 if length <= 2 else 1
 
 
 def inits(tier):
@@ -206,12 +212,13 @@ def programs(init, tier):
     out = []
 
     def rec(prog, st, typed):
-        out.append(tuple(prog))
+        if typed <= max_typed(tier, len(prog) - 1):
+            out.append(tuple(prog))
         if len(prog) == 4:
             return
         for c in candidates(st, tier):
             carries = bool(c[2])
-            if carries and typed >= MAX_TYPED:
+            if carries and typed >= max_typed(tier, 1):
                 continue
             try:
                 st2 = M.typecheck(build(c), st)
@@ -241,32 +248,28 @@ def kinds_for(node):
 
 
 def assignments(prog, tier):
-    """Yield lists of (node index, kind)."""
+    """Yield lists of (node index, kind): the re-annotations explored for this program in this tier."""
     nodes = prog_nodes(prog)
     n = len(nodes)
+    length = len(prog) - 1
     seen = set()
-
-    def emit(a):
-        key = tuple(a)
-        if key in seen or not a:
-            return None
-        seen.add(key)
-        return list(a)
-
     for i in range(n):
         for k in kinds_for(nodes[i]):
-            a = emit([(i, k)])
-            if a:
-                yield a
-    for i, j in itertools.combinations(range(n), 2):
+            seen.add(((i, k),))
+            yield [(i, k)]
+    if tier == 'quick' and length >= 3:
+        return
+    pool = range(n) if length <= 2 else [i for i in range(n) if not nodes[i][5]]
+    for i, j in itertools.combinations(pool, 2):
         for ki in kinds_for(nodes[i]):
             for kj in kinds_for(nodes[j]):
-                a = emit([(i, ki), (j, kj)])
-                if a:
-                    yield a
+                seen.add(((i, ki), (j, kj)))
+                yield [(i, ki), (j, kj)]
     if tier == 'thorough':
         inner = [i for i in range(n) if not nodes[i][5]]
-        for r in range(3, len(inner) + 1):
+        if length >= 3:
+            inner = [i for i in inner if nodes[i][1] == 0]  # the initial PUSH only
+        for r in range(2, len(inner) + 1):
             for sub in itertools.combinations(inner, r):
                 for pat in ('f', 't', 'ft', 'alt'):
                     a = []
@@ -275,8 +278,8 @@ def assignments(prog, tier):
                         if k not in kinds_for(nodes[i]):
                             k = 't'
                         a.append((i, k))
-                    a = emit(a)
-                    if a:
+                    if tuple(a) not in seen:
+                        seen.add(tuple(a))
                         yield a
 
 
@@ -288,11 +291,20 @@ def annotate(prog, nodes, assignment):
     return [build(tp, per[i]) for i, tp in enumerate(prog)]
 
 
+def label(classes):
+    """One label for the set of annotated nodes (most specific class wins)."""
+    if any(c.startswith('inner pair') for c in classes):
+        return 'inner pair of a right comb'
+    if any(c.startswith('pair') for c in classes):
+        return 'pair that is not the right component of a pair'
+    return 'leaf or option/or/list/map/lambda node'
+
+
 # ---------------------------------------------------------------- running the real interpreter
 _CTX = None
 
 
-@lru_cache(maxsize=200000)
+@lru_cache(maxsize=400000)
 def _match(js):
     from pytezos.michelson.micheline import Micheline
     import pytezos.michelson.instructions  # noqa: F401  (registers the instruction classes)
@@ -300,26 +312,30 @@ def _match(js):
 
 
 def observe_stack(stack):
-    out = []
+    """(execution observation, packing observation) of a real stack."""
+    vals, packs = [], []
     for o in stack.items:
         try:
             t = A.impl_type(o)
             v = A.from_impl(o, t)
         except Exception as e:  # malformed object: part of the observation
-            out.append(('unreadable', type(e).__name__, str(e)[:80]))
+            vals.append(('unreadable', type(e).__name__, str(e)[:80]))
+            packs.append(None)
             continue
+        vals.append((T.t_str(t), repr(v)))
         pk = None
         if T.packable(t):
             try:
                 pk = o.pack().hex()
             except Exception as e:
                 pk = f'pack raises {type(e.__cause__ or e).__name__}'
-        out.append((T.t_str(t), repr(v), pk))
-    return out
+        packs.append(pk)
+    return vals, packs
 
 
 def run_prog(code, upto=None):
-    """Run Micheline instructions on a fresh real stack.  Returns ('ok', stack observation) | ('fail', index, prim, kind)."""
+    """Run Micheline instructions on a fresh real stack.
+    Returns ('ok', values, packs) | ('fail', index, prim, 'FAILWITH'|'error')."""
     global _CTX
     from pytezos.context.impl import ExecutionContext
     from pytezos.michelson.stack import MichelsonStack
@@ -332,7 +348,8 @@ def run_prog(code, upto=None):
             cls.execute(st, [], _CTX)
         except Exception as e:
             return ('fail', i, ins['prim'], 'FAILWITH' if 'FAILWITH' in [str(a) for a in e.args] else 'error')
-    return ('ok', observe_stack(st))
+    vals, packs = observe_stack(st)
+    return ('ok', vals, packs)
 
 
 def _iname(ins):
@@ -342,43 +359,45 @@ def _iname(ins):
     return ins['prim'] + n
 
 
-def compare_runs(bare, ann, classes):
+def _exec_part(r):
+    return r[:2] if r[0] == 'ok' else r
+
+
+def compare_runs(bare, ann, classes, rb=None, ra=None):
     """[] if the annotated program behaves as the bare one, else [(descriptor, detail)]."""
-    rb = run_prog(bare)
-    ra = run_prog(ann)
+    rb = rb or run_prog(bare)
+    ra = ra or run_prog(ann)
     if rb == ra:
-        return [], rb
-    # locate the first instruction after which the two runs differ
-    k = len(bare)
+        return []
+    where = label(classes)
+    if _exec_part(rb) == _exec_part(ra):
+        i = next(i for i, (x, y) in enumerate(zip(rb[2], ra[2])) if x != y)
+        return [(f'packing a result value gives different bytes [annotated: {where}]',
+                 f'bare {json.dumps(bare)}; annotated {json.dumps(ann)}: stack slot {i} = {rb[1][i]} packs to {rb[2][i]} vs {ra[2][i]}')]
+    # locate the first instruction after which the two executions differ
+    rb1, ra1, k = rb, ra, len(bare)
     for upto in range(1, len(bare) + 1):
         pb, pa = run_prog(bare, upto), run_prog(ann, upto)
-        if pb != pa:
+        if _exec_part(pb) != _exec_part(pa):
             k, rb1, ra1 = upto, pb, pa
             break
-    else:  # pragma: no cover - differs only as a whole (cannot happen: runs are deterministic)
-        rb1, ra1 = rb, ra
-    ins = _iname(bare[k - 1])
-    where = ' + '.join(sorted(set(classes)))
+    ins = _iname(bare[min(k, len(bare)) - 1])
     if rb1[0] == 'ok' and ra1[0] == 'fail':
         what = 'fails only when annotated'
     elif rb1[0] == 'fail' and ra1[0] == 'ok':
         what = 'fails only when bare'
     elif rb1[0] == 'fail':
         what = 'fails differently'
+    elif ins == 'PACK':
+        what = 'bytes differ'
     else:
-        sb, sa = rb1[1], ra1[1]
-        if len(sb) == len(sa) and all(x[:2] == y[:2] for x, y in zip(sb, sa)):
-            what = 'packed bytes of the result differ'
-        elif ins == 'PACK':
-            what = 'PACK bytes differ'
-        else:
-            what = 'result stack differs'
+        what = 'result stack differs'
     return [(f'{ins}: {what} [annotated: {where}]',
-             f'bare {json.dumps(bare)} -> {rb1}; annotated {json.dumps(ann)} -> {ra1}')], rb
+             f'bare {json.dumps(bare)} -> {_exec_part(rb1)}; annotated {json.dumps(ann)} -> {_exec_part(ra1)}')]
 
 
 # ---------------------------------------------------------------- driver interface
-NSPLIT = {'quick': 4, 'thorough': 8}
+NSPLIT = {'quick': 8, 'thorough': 16}
 
 
 def shards(tier, seed):
@@ -397,26 +416,25 @@ def run_shard(spec, tier):
         bare = [build(tp) for tp in prog]
         rb = run_prog(bare)
         r.ev()
-        r.out(f'bare: {rb[0]}' + (f' at {rb[2]}' if rb[0] == 'fail' else ''))
+        r.out(f'bare run: {rb[0]}' + (f' at {rb[2]}' if rb[0] == 'fail' else ''))
         r.extra['programs'] += 1
+        r.extra[f'programs of length {len(prog) - 1}'] += 1
         nodes = prog_nodes(prog)
         for a in assignments(prog, tier):
             ann = annotate(prog, nodes, a)
             classes = [nodes[ni][4] for ni, _ in a]
             r.ev()
-            key = json.dumps(ann, sort_keys=True)
-            r.nt(key)
+            r.nt(json.dumps(ann, sort_keys=True))
             case = {'bare': bare, 'annotated': ann, 'nodes': classes}
             ra = run_prog(ann)
             if ra == rb:
-                r.out('same: ' + ('ok' if ra[0] == 'ok' else 'both fail'))
+                r.out(f'{len(a)} annotated: same ' + ('result' if ra[0] == 'ok' else f'failure at {ra[2]}'))
             else:
-                vs, _ = compare_runs(bare, ann, classes)
-                r.out('differs')
-                for d, detail in vs:
+                r.out(f'{len(a)} annotated: differs')
+                for d, detail in compare_runs(bare, ann, classes, rb, ra):
                     r.viol(d, case, detail)
             last = case
-            if len(r.samples) < 1 and len(a) == 2 and len(prog) >= 3:
+            if not r.samples and len(a) == 2 and len(prog) >= 3:
                 r.sample(case)
     if last is not None:
         r.sample(last)
@@ -424,8 +442,7 @@ def run_shard(spec, tier):
 
 
 def replay(case):
-    vs, _ = compare_runs(case['bare'], case['annotated'], case.get('nodes', ['?']))
-    return vs
+    return compare_runs(case['bare'], case['annotated'], case.get('nodes', ['?']))
 
 
 def observe(case):
